@@ -288,6 +288,53 @@ def divergence_probe(rng, relift):
     return None, case, tag
 
 
+def frame_probe(rng):
+    """a pipeline fitted on a pandas DataFrame (named columns) is a fitted pipeline like any other: predict / score on the
+    same frame and predict / predict_trajectory on the plain array must work and give what a twin fitted on the plain
+    array gives (for which the iterated-one-step clauses are checked by the main oracle)"""
+    import pandas
+    rs = np.random.RandomState(rng.randint(0, 2 ** 31 - 1))
+    nx, nu = rng.randint(1, 3), rng.randint(0, 2)
+    ep = rng.random() < 0.6
+    blocks = [(l, rs.uniform(-1, 1, (rng.randint(6, 9), nx + nu))) for l in rng.sample(range(6), rng.randint(1, 3) if ep else 1)]
+    X = st.ref_combine(blocks, ep)
+    names = (['episode'] if ep else []) + [f's{j}' for j in range(nx)] + [f'in{j}' for j in range(nu)]
+    df = pandas.DataFrame(X, columns=names)
+
+    def make():
+        lf = []
+        if rng_choice[0]:
+            lf.append(('pl', pykoop.PolynomialLiftingFn(order=2)))
+        if rng_choice[1]:
+            lf.append(('dl', pykoop.DelayLiftingFn(rng_choice[2], rng_choice[2] if nu else 0)))
+        return pykoop.KoopmanPipeline(lifting_functions=lf or None, regressor=pykoop.Edmd(alpha=1.0))
+    rng_choice = (rng.random() < 0.6, rng.random() < 0.6, rng.randint(1, 2))
+    case = {'nx': nx, 'nu': nu, 'ep': ep, 'X': X.tolist(), 'names': names, 'poly': rng_choice[0],
+            'delay': rng_choice[2] if rng_choice[1] else 0}
+    tags = {'probe': 'frame'}
+    try:
+        kf = make().fit(df, n_inputs=nu, episode_feature=ep)
+        ka = make().fit(X, n_inputs=nu, episode_feature=ep)
+    except Exception as ex:
+        return f'fit on a DataFrame raised {type(ex).__name__}: {ex}', case, tags
+    calls = [('predict(frame)', lambda: kf.predict(df), lambda: ka.predict(X)),
+             ('predict(array)', lambda: kf.predict(X), lambda: ka.predict(X)),
+             ('predict_trajectory(array)', lambda: kf.predict_trajectory(X), lambda: ka.predict_trajectory(X)),
+             ('predict_trajectory(array, relift_state=False)', lambda: kf.predict_trajectory(X, relift_state=False),
+              lambda: ka.predict_trajectory(X, relift_state=False)),
+             ('score(frame)', lambda: np.array([kf.score(df)]), lambda: np.array([ka.score(X)]))]
+    for name, f, g in calls:
+        want = g()
+        try:
+            got = f()
+        except Exception as ex:
+            return (f'a KoopmanPipeline fitted on a DataFrame cannot {name}: {type(ex).__name__}: {ex} (the twin fitted on the '
+                    f'plain array predicts normally)'), case, dict(tags, call=name.split('(')[0])
+        if np.shape(got) != np.shape(want) or not np.allclose(got, want, rtol=1e-12, atol=1e-12, equal_nan=True):
+            return f'{name} of a pipeline fitted on a DataFrame differs from the twin fitted on the plain array', case, tags
+    return None, case, tags
+
+
 def oracle(c, rng):
     try:
         return _oracle(c, rng)
@@ -429,6 +476,12 @@ def run(ctx):
             if w:
                 ctx.fail(w, fc, tags)
 
+    for _ in range(ctx.n(6, 60)):
+        w, case, tags = frame_probe(ctx.rng)
+        ctx.count('frame probe')
+        if w:
+            ctx.fail(w, case, tags)
+            break
     for relift in (True, False):
         for _ in range(ctx.n(3, 20)):
             w, case, tags = divergence_probe(ctx.rng, relift)
